@@ -50,7 +50,8 @@ def cases(tier, seed):
     # maximum holding time on irregular grids: elapsed time, not a number of steps (C05 machinery: soundness and completeness of the windows)
     from . import c05
     for cid, kw, level, opts in (c05.MSD_IRREGULAR if tier == 'thorough' else c05.MSD_IRREGULAR[:3]):
-        out.append(('irregular_' + cid, dict(kind='c05', shape='contract_storage', kw=dict(kw), level=level, opts=opts)))
+        # empty start and no inflow only: the other region is C05's open finding KF-C05-msd, reported by the C05 check
+        out.append(('irregular_' + cid, dict(kind='c05', shape='contract_storage', kw=dict(kw), level=level, opts=dict(opts, outside_known_only=True))))
     out.append(('irregular_coarse_contract_dst', dict(kind='coarse13', opt='coarse', kind13='contract', T=4, coarse='2d', freq=('d', '2021-03-27', '2021-03-31', 'CET'))))
     out.append(('irregular_coarse_transport_dst', dict(kind='coarse13', opt='coarse', kind13='transport', T=4, coarse='2d', eff=0.5, freq=('d', '2021-10-30', '2021-11-03', 'CET'))))
     return out
